@@ -67,7 +67,8 @@ class PythonParserGenerator(IndentPrintMixin, NodeWalker):
     def loopn(self) -> str:
         n = self.blockn
         # a = GREEKTOME[n]
-        a = string.ascii_letters[n]
+        letters = string.ascii_letters
+        a = letters[n] if n < len(letters) else f'_{n}'
         return f'cl{a}' if n > 0 else 'cl'
 
     def push_ctx(self, ctx: str):
